@@ -33,11 +33,22 @@ def post_result_is_backend_result(eng, st, entry):
     return T(BOOL, f"(=> {st.env['result1'].s} (= {st.env['result0'].s} {st.env['$cres'].s}))")
 
 
+def post_valid_unless_cse(eng, st, entry):
+    """a result taken from the backend cache (not CSE) is replayed only if it is still valid -- in a dry run as in a real run"""
+    if "$ctype" not in st.env:
+        return T(BOOL, "true")
+    cse = eng.enum_const("CacheResult", "CSE")
+    valid = eng.ctx.app("is_valid_value", [OBJ], BOOL, [st.env["result0"]])
+    return T(BOOL, f"(=> (and {st.env['result1'].s} (not (= {st.env['$ctype'].s} {cse.s}))) {valid.s})")
+
+
 contracts = {
  "Scheduler._get_cache": dict(where=f"{S}:Scheduler._get_cache",
     params={"self": REF, "job": REF}, returns=[OBJ, BOOL, OBJ],
-    lib={"self.backend.check_cache(": check_cache_call},
-    post_hooks={"cached-error-only-from-CSE": post_errors_only_from_cse, "cached-result-is-the-recorded-one": post_result_is_backend_result}),
+    lib={"self.backend.check_cache(": check_cache_call,
+         "self._is_valid_value(": lambda e, n, st, old: e.ctx.app("is_valid_value", [OBJ], BOOL, [e.to_obj(e.ev(n.args[0], st, old))])},
+    post_hooks={"cached-error-only-from-CSE": post_errors_only_from_cse, "cached-result-is-the-recorded-one": post_result_is_backend_result,
+                "backend-cache-hit-replayed-only-if-valid": post_valid_unless_cse}),
  "Scheduler._reject_job_main_thread": dict(where=f"{S}:Scheduler._reject_job_main_thread",
     params={"self": REF, "job": Opt(REF), "error": OBJ, "error_traceback": OBJ, "job_tags": OBJ},
     ghost={"rejected": BOOL, "finalized": BOOL, "workflow_rejected": BOOL, "recorded_end": BOOL},
@@ -91,7 +102,7 @@ def record_error_value(eng, n, st, old):
 
 
 MODULE = Module(fields={"_dryrun": BOOL, "was_cached": BOOL},
-                ufuns={"isinst_ErrorValue": ([OBJ], BOOL), "isinst_ErrorValue_recorded": ([OBJ], BOOL)},
+                ufuns={"isinst_ErrorValue": ([OBJ], BOOL), "isinst_ErrorValue_recorded": ([OBJ], BOOL), "is_valid_value": ([OBJ], BOOL)},
                 enums={"CacheResult": ["CSE", "SINGLE", "ULTIMATE", "MISS"], "CacheScope": ["NONE", "CSE", "BACKEND"], "CacheCheckValid": ["FULL", "SHALLOW"]},
                 classes={"self": "Scheduler", "job": "Job"}, contracts=contracts)
 VERIFY = ["Scheduler._get_cache", "Scheduler._reject_job_main_thread", "Scheduler._exec_job_main_thread", "Scheduler._done_job_main_thread"]
